@@ -263,7 +263,75 @@ def fault_space(s):
     size = len(SD.write(s))
     for cut in range(0, size):
         out.append({"t": "truncate", "at": cut})
+    for n in UPDATE_COUNTS:
+        for mode in UPDATE_MODES:
+            out.append({"t": "updates", "n": n, "mode": mode})
+    # a number of more digits than int() converts (4300), where the file structure is read without the tokenizer
+    out.append({"t": "digits", "where": "startxref"})
+    for n in sorted(s["objs"]):
+        for where in ("objnum", "objgen"):
+            for noxref in (False, True):
+                out.append({"t": "digits", "where": where, "obj": n, "noxref": noxref})
     return out
+
+
+MANY_DIGITS = b"9" * 4400
+
+
+def many_digits(data, f):
+    import re
+
+    if f["where"] == "startxref":
+        m = list(re.finditer(rb"startxref\s+(\d+)", data))
+        if not m:
+            return None
+        return data[:m[-1].start(1)] + MANY_DIGITS + data[m[-1].end(1):]
+    m = re.search(rb"(?m)^(%d) (0) obj" % f["obj"], data)
+    if not m:
+        return None
+    g = 1 if f["where"] == "objnum" else 2
+    out = data[:m.start(g)] + MANY_DIGITS + data[m.end(g):]
+    if f["noxref"]:
+        # no usable cross-reference: the body scan has to read the header
+        out = out.replace(b"startxref", b"startxrfe")
+    return out
+
+
+# incremental updates appended to the file: n sections that change nothing, chained by /Prev ("plain"), chained by
+# /Prev and /XRefStm both ("xrefstm"), or with the oldest appended section pointing at the newest ("loop")
+UPDATE_COUNTS = (1, 40, 1200, 5000)
+UPDATE_MODES = ("plain", "xrefstm", "loop")
+
+
+def append_updates(data, n, mode):
+    import re
+
+    m = list(re.finditer(rb"startxref\s+(\d+)", data))
+    if not m:
+        return None
+    prev = int(m[-1].group(1))
+    out = bytearray(data)
+    if not out.endswith(b"\n"):
+        out += b"\n"
+    first = None
+    sec = b"xref\n0 1\n0000000000 65535 f \ntrailer\n<< /Size 1 %s >>\nstartxref\n%d\n%%%%EOF\n"
+    # every section has the same length for a given number of digits, so the position of the newest one is known
+    for k in range(n):
+        x = len(out)
+        if first is None:
+            first = x
+        extra = b"/Prev %010d" % prev
+        if mode == "xrefstm":
+            extra += b" /XRefStm %010d" % prev
+        out += sec % (extra, x)
+        prev = x
+    if mode == "loop":
+        # the oldest appended section leads to the newest one instead of the original table
+        newest = prev
+        old = bytes(out[first:])
+        i = old.index(b"/Prev ")
+        out[first:] = old[:i] + b"/Prev %010d" % newest + old[i + 16:]
+    return bytes(out)
 
 
 def sample_space(name):
@@ -431,6 +499,10 @@ def apply_fault(s, f):
         return SD.write(s, o2)
     if f["t"] == "truncate":
         return SD.write(s)[: f["at"]]
+    if f["t"] == "updates":
+        return append_updates(SD.write(s), f["n"], f["mode"])
+    if f["t"] == "digits":
+        return many_digits(SD.write(s), f)
     raise ValueError(f)
 
 
@@ -569,7 +641,7 @@ def run_case(case):
         else:
             viol.append((bucket(exc), "%s raised %s: %s" % (name, type(exc).__name__, str(exc)[:200])))
     f = case["fault"]
-    if f["t"] in ("truncate", "flipbyte", "raw", "trailer", "objstm", "xrefentry"):
+    if f["t"] in ("truncate", "flipbyte", "raw", "trailer", "objstm", "xrefentry", "updates", "digits"):
         nt = bool(fetched) or f["t"] in ("trailer", "objstm", "xrefentry")
     else:
         nt = f["obj"] in fetched
@@ -609,6 +681,11 @@ def describe(case):
         return "seed %s CMap stream %d range <- %s" % (case["seed"], f["obj"], CMAP_RANGE_FAULTS[f["k"]][1].decode())
     if f["t"] == "lzwcode":
         return "seed %s LZW stream %d code #%d <- %d" % (case["seed"], f["obj"], f["pos"], f["val"])
+    if f["t"] == "digits":
+        return "seed %s: %s%s written with 4400 digits%s" % (case["seed"], f["where"], " of object %d" % f["obj"] if "obj" in f else "",
+                                                          ", no cross-reference" if f.get("noxref") else "")
+    if f["t"] == "updates":
+        return "seed %s followed by %d incremental update sections (%s)" % (case["seed"], f["n"], f["mode"])
     if f["t"] == "raw":
         return "fuzzed file of %d bytes: %r..." % (len(case["data"]), case["data"][:60])
     return "seed %s %s at byte %d" % (case["seed"], f["t"], f["at"])
@@ -716,6 +793,10 @@ def run_shard(spec, ctx):
         # faults are sampled with a seeded PRNG
         def always(c):
             f = c["fault"]
+            if f["t"] == "updates" and (f["n"] <= 1200 or c["seed"] == "simple"):
+                return True
+            if f["t"] == "digits" and (c["seed"] in ("simple", "crypt-aes") or f["where"] == "startxref"):
+                return True
             if f["t"] == "operand" and c["seed"] == "simple":
                 return True
             if f["t"] == "byteset" and c["seed"] == "cid":
